@@ -210,7 +210,10 @@ def base_config(draw, nmin=16, nmax=64, max_laststep=60, min_laststep=1, multibu
         o["alpha0"] = gen.f32(draw(st.sampled_from([1e-3, 4e-3, 2e-2])))     # decoy: the frequency overrides it
     if use_rev:
         d = derive(o)
-        o["StepsPerRevolution"] = float(steps * d["fs"] / d["frev"])     # steps = StepsPerRevolution*f_rev/f_s
+        # in general StepsPerRevolution*f_rev/f_s is not a whole number: half of these configurations have a fractional
+        # number of steps per synchrotron period (round-7 seed C10h truncates it for the time axis of the results file)
+        fracsteps = steps + (draw(st.floats(0.05, 0.95)) if draw(st.booleans()) else 0.0)
+        o["StepsPerRevolution"] = float(fracsteps * d["fs"] / d["frev"])     # steps = StepsPerRevolution*f_rev/f_s
         o["StepsPerTs"] = decoy
     if n >= 200 or "BeamEnergy" in o:
         # fine grids / other machines: keep the per-step decrement inside the explicit diffusion scheme's stable range (e1 < delta^2/2),
